@@ -410,12 +410,19 @@ def clause_d(ctx: Context, idx) -> None:
         call = next((c for c in ast.walk(drv.node) if isinstance(c, ast.Call) and isinstance(c.func, ast.Name) and c.func.id == name), None) if drv else None
         if call is None:
             raise AnalysisError(f"anchor vanished: the call of {name} in density_matrix_from_gaussian")
+        # the element the call's result is stored in names the roles: M[i, j] = f(...): i is the bra (row) index, j the ket (column) index
+        row_name, col_name = "row", "col"
+        for a in ast.walk(drv.node):
+            if isinstance(a, ast.Assign) and a.value is call and len(a.targets) == 1 and isinstance(a.targets[0], ast.Subscript) \
+                    and isinstance(a.targets[0].slice, ast.Tuple) and len(a.targets[0].slice.elts) == 2 \
+                    and all(isinstance(x, ast.Name) for x in a.targets[0].slice.elts):
+                row_name, col_name = (x.id for x in a.targets[0].slice.elts)
         terms_n = {}
         for pname, arg in zip(fn_n.params(), call.args):
             if isinstance(arg, ast.Subscript) and isinstance(arg.value, ast.Name) and arg.value.id == "basis" and isinstance(arg.slice, ast.Name):
-                terms_n[pname] = rc.BRA if arg.slice.id == "row" else (rc.KET if arg.slice.id == "col" else None)
-            elif isinstance(arg, ast.Name) and arg.id in ("row", "col"):
-                terms_n[pname] = ("idx", rc.BRA if arg.id == "row" else rc.KET)
+                terms_n[pname] = rc.BRA if arg.slice.id == row_name else (rc.KET if arg.slice.id == col_name else None)
+            elif isinstance(arg, ast.Name) and arg.id in (row_name, col_name):
+                terms_n[pname] = ("idx", rc.BRA if arg.id == row_name else rc.KET)
         terms_n = {k: v for k, v in terms_n.items() if v is not None}
         terms_j = {p: ("idx", rc.BRA if p == "row" else rc.KET) for p in fn_j.params() if p in ("row", "col")}
         try:
